@@ -77,6 +77,8 @@ def canon(v):
         return "f" + v.hex()
     if isinstance(v, (str, int, bool, type(None), complex, bytes)):
         return repr(v)
+    if hasattr(v, "_position") and hasattr(v, "_parent"):
+        return f"OBJ<{type(v).__name__}@{id(v):x}>"      # a magpylib object inside a container: its identity
     if hasattr(v, "as_dict"):
         return "S" + canon(v.as_dict())
     return f"O<{type(v).__name__}>" + canon(getattr(v, "__dict__", {}))
